@@ -8,11 +8,13 @@ EXPLANATION = ("winnability (three entry points), reduced divisor, rank, gonalit
 NV = 5
 def gen(rng, tier):
     out = []
-    for _ in range(45 if tier == "quick" else 700):
-        G, fam = common.random_connected_graph(rng, 2, 5); n = G["n"]
-        D = common.random_divisor(rng, G); E = common.lap_apply(G, D, [rng.randint(-2, 2) for _ in range(n)]) if rng.random() < 0.5 else common.random_divisor(rng, G)
+    NA, NB = (45, 800) if tier == "quick" else (700, 4000)     # NB further inputs without the (expensive) rank / gonality questions
+    for it in range(NA + NB):
+        G, fam = common.random_connected_graph(rng, 2, 5 if it < NA else 6); n = G["n"]
+        D = common.random_divisor(rng, G) if (it < NA or rng.random() < 0.5) else [rng.randint(-3, 4) for _ in range(n)]
+        E = common.lap_apply(G, D, [rng.randint(-2, 2) for _ in range(n)]) if rng.random() < 0.5 else common.random_divisor(rng, G)
         small = common.genus(G) <= 3 and sum(D) <= 5 and max(abs(x) for x in D) <= 6
-        base = {"G": G, "D": D, "E": E, "rank": small, "gon": n <= 4}
+        base = {"G": G, "D": D, "E": E, "rank": small and it < NA, "gon": n <= 4 and it < NA}
         for variant in range(NV):
             c = dict(base); c["variant"] = variant; c["s"] = rng.randrange(1 << 30)
             if variant == NV - 1:
